@@ -29,6 +29,15 @@ func (vd *Vedirect) VeCommandGet(address uint16) (value []byte, err error) {
 			continue
 		}
 
+		// a get response carries at least the address (2 bytes) and the flag (1 byte)
+		if len(rawValues) < 3 {
+			err = fmt.Errorf("get response too short, len(rawValues)=%d", len(rawValues))
+			if try > 0 {
+				vd.debugPrintf("retry try=%d err=%v", try, err)
+			}
+			continue
+		}
+
 		// check address
 		responseAddress := uint16(littleEndianBytesToUint(rawValues[0:2]))
 		if address != responseAddress {
